@@ -106,6 +106,11 @@ pub async fn init_analysis(
     emmyrc: Arc<Emmyrc>,
     open_files: Vec<(lsp_types::Uri, String)>,
 ) {
+    // the client round trip (up to 5 s) happens BEFORE the write lock is taken
+    status_bar
+        .create_progress_task(ProgressTask::LoadWorkspace)
+        .await;
+
     let mut mut_analysis = analysis.write().await;
 
     // update config
@@ -115,9 +120,6 @@ pub async fn init_analysis(
         log::info!("current config : {}", emmyrc_json);
     }
 
-    status_bar
-        .create_progress_task(ProgressTask::LoadWorkspace)
-        .await;
     status_bar.update_progress_task(
         ProgressTask::LoadWorkspace,
         None,
